@@ -109,7 +109,8 @@ Print Assumptions C06_no_deadline_is_invariant.
 (* ------------------------------------------------------------------ C06_deadline_lifecycle *)
 (* (keep) Every command other than SET, MSET, SETEX, EXPIRE, PERSIST, RENAME -- GET, GETRANGE,
    SETRANGE, APPEND, INCR*, DECR*, SETNX, STRLEN, MGET, DEL, EXISTS, KEYS, TTL, TYPE and every
-   list command -- leaves every deadline alone: a key present after the step has the deadline
+   list (incl. the blocking pops), hash and sorted-set command, i.e. every command of every family
+   in [Exec.families] -- leaves every deadline alone: a key present after the step has the deadline
    it had in the view before the step, and none if the step created it. *)
 Theorem C06_deadline_lifecycle_keep : forall d now nowms args hint k v' t',
   db_wf d -> changes_ttl (cmd_name args) = false ->
@@ -276,11 +277,12 @@ Qed.
 Print Assumptions C06_monotone_clock_programs.
 
 (* ... and as long as no command names k it stays invisible, at every clock from the deadline on
-   (clocks not earlier than the end of the steps run so far). *)
+   that is not earlier than [step_end] of the steps run so far (a step's own clock second; for
+   BLPOP/BRPOP, which poll every 100 ms until their timer fires, the second of that timer). *)
 Theorem C06_expired_stays_invisible : forall d k t p now,
   db_wf d -> db_ttl d k = Some t ->
   Forall (fun s => ~ names_key k s) p ->
-  Forall (fun s => step_end (s_now s) (s_nowms s) <= now) p -> t <= now ->
+  Forall (fun s => step_end (s_now s) (s_nowms s) (s_args s) <= now) p -> t <= now ->
   view (snd (run d p)) now k = None.
 Proof. exact run_expired_stays_invisible. Qed.
 Print Assumptions C06_expired_stays_invisible.
@@ -356,3 +358,20 @@ Proof.
   apply Forall_cons; [left|apply Forall_nil].
   unfold names_key. cbn. intros [H|[H|[]]]; discriminate.
 Qed.
+
+(* hashes and sorted sets expire like everything else; a blocked BLPOP whose polls straddle the
+   deadline (deadline 102, polls from 101.9 s on) finds nothing *)
+Example ex_other_families :
+  fst (run empty_db
+    [st 100 [B "HSET"; B "h"; B "f"; B "v"]; st 100 [B "ZADD"; B "z"; B "1"; B "m"];
+     st 100 [B "RPUSH"; B "l"; B "a"];
+     st 100 [B "EXPIRE"; B "h"; B "2"]; st 100 [B "EXPIRE"; B "z"; B "2"]; st 100 [B "EXPIRE"; B "l"; B "2"];
+     st 101 [B "HGET"; B "h"; B "f"]; st 101 [B "ZRANK"; B "z"; B "m"]; st 101 [B "HSET"; B "h"; B "g"; B "w"];
+     st 101 [B "TTL"; B "h"];
+     mkStep 101 101950 [B "BLPOP"; B "l"; B "1"] RNil;
+     st 102 [B "HGET"; B "h"; B "f"]; st 102 [B "ZRANK"; B "z"; B "m"]; st 102 [B "HLEN"; B "h"];
+     st 102 [B "ZADD"; B "z"; B "5"; B "n"]; st 102 [B "TTL"; B "z"]])
+  = [RInt 1; RInt 1; RInt 1; RInt 1; RInt 1; RInt 1;
+     RBulk (B "v"); RInt 0; RInt 1; RInt 1; RNil;
+     RNil; RNil; RInt 0; RInt 1; RInt (-1)].
+Proof. vm_compute. reflexivity. Qed.
